@@ -26,6 +26,7 @@ ASSUMPTIONS = [
     '(what the option does); without it the other axis is complete',
     'collapse labels are strings (they become ids)',
 ]
+ANCHORS = ['Table.partition', 'Table.collapse', 'Table._conv_to_self_type']
 REQUIRED = ['partition_calls', 'partition_dict_id2grp', 'partition_dict_grp2ids',
             'partition_ignore_none', 'partition_remove_empty',
             'partition_falsy_labels', 'collapse_one_to_one',
